@@ -45,6 +45,11 @@ Dispatch(r, op, a) ==
     [] op = "verify"       -> Verify(r, a.vk, a.msg, a.sig)
     [] op = "dkg1"         -> DkgPart1(r, a.id, a.n, a.t, a.a0, a.coeffs, a.k, a.refresh)
     [] op = "dkg2"         -> DkgPart2(r, a.sec, a.r1, a.refresh)
+    [] op = "rr_params"    -> RandParams(r, a.vk, a.seed, a.comms)
+    [] op = "rr_sign"      -> SignRand(r, a.pkg, a.non, a.kp, a.seed)
+    [] op = "rr_aggregate" -> AggregateRand(r, a.pkg, a.shares, a.pkp, a.mode, a.rp)
+    [] op = "single_sign"  -> SingleSign(r, a.s, a.k, a.msg)
+    [] op = "batch"        -> BatchVerify(r, a.items, a.blinders)
 
 RECURSIVE Outcomes(_,_,_)
 Outcomes(r, op, a) ==
@@ -384,6 +389,127 @@ ActRepair3(out, shs, id, pkph) ==
      /\ Finish("repair3", res, IF res.ok THEN (out :> KpObj(KpProj(res))) ELSE << >>,
                [op |-> "repair3", out |-> out, sigmas |-> shs, id |-> id, pkp |-> pkph,
                 expect |-> IF res.ok THEN [ok |-> TRUE] @@ KpProj(res) ELSE ErrProj(res)])
+
+
+-----------------------------------------------------------------------------
+(* frost-rerandomized *)
+
+RpProj(rp) == [alpha |-> rp.alpha, alphaG |-> rp.alphaG, vk2 |-> rp.vk2]
+
+\* coordinator: RandomizedParams::new_from_commitments(vk, commitments, rng):
+\* the seed is one draw of scalar length
+ActRrNew(rph, seedh, pkph, pkgh, seed) ==
+  /\ Has(pkph) /\ Has(pkgh)
+  /\ \E o \in Outcomes(ro, "rr_params", [vk |-> env[pkph].vk, seed |-> seed, comms |-> env[pkgh].comms]) :
+       LET res == o[2] IN
+       /\ ro' = o[1]
+       /\ Finish("rr_new", res,
+                 IF res.ok THEN [h \in {rph, seedh} |-> IF h = rph THEN [ty |-> "rp"] @@ RpProj(res)
+                                                        ELSE [ty |-> "bytes", b |-> seed]]
+                 ELSE << >>,
+                 [op |-> "rr_new", out |-> rph, out_seed |-> seedh, pkp |-> pkph, pkg |-> pkgh, rng |-> <<seed>>,
+                  expect |-> IF res.ok THEN [ok |-> TRUE, seed |-> seed] @@ RpProj(res) ELSE ErrProj(res)])
+
+\* participant or coordinator: regenerate_from_seed_and_commitments
+ActRrRegen(rph, vkh, seedh, pkgh) ==
+  /\ Has(vkh) /\ Has(seedh) /\ Has(pkgh)
+  /\ \E o \in Outcomes(ro, "rr_params", [vk |-> env[vkh].vk, seed |-> env[seedh].b, comms |-> env[pkgh].comms]) :
+       LET res == o[2] IN
+       /\ ro' = o[1]
+       /\ Finish("rr_regen", res, IF res.ok THEN (rph :> ([ty |-> "rp"] @@ RpProj(res))) ELSE << >>,
+                 [op |-> "rr_regen", out |-> rph, pkp |-> vkh, seed |-> seedh, pkg |-> pkgh,
+                  expect |-> IF res.ok THEN [ok |-> TRUE] @@ RpProj(res) ELSE ErrProj(res)])
+
+\* explicit randomizer (RandomizedParams::from_randomizer)
+ActRrFixed(rph, pkph, alpha) ==
+  /\ Has(pkph)
+  /\ ro' = ro
+  /\ LET rp == FixedParams(env[pkph].vk, alpha) IN
+     Finish("rr_fixed", [ok |-> TRUE], (rph :> ([ty |-> "rp"] @@ rp)),
+            [op |-> "rr_fixed", out |-> rph, pkp |-> pkph, alpha |-> alpha, expect |-> [ok |-> TRUE] @@ RpProj(rp)])
+
+\* adversary / network: a seed with one byte altered
+ActTamperSeed(out, seedh, d) ==
+  /\ Has(seedh)
+  /\ ro' = ro
+  /\ LET b == env[seedh].b IN
+     Finish("tamper_seed", [ok |-> TRUE], (out :> [ty |-> "bytes", b |-> [b EXCEPT ![Len(b)] = (@ + d) % 256]]),
+            [op |-> "tamper_seed", out |-> out, src |-> seedh, d |-> d])
+
+ActRrSign(out, pkgh, nonh, kph, seedh) ==
+  /\ Has(pkgh) /\ Has(nonh) /\ Has(kph) /\ Has(seedh)
+  /\ \E o \in Outcomes(ro, "rr_sign", [pkg |-> env[pkgh], non |-> env[nonh], kp |-> env[kph], seed |-> env[seedh].b]) :
+       LET res == o[2] IN
+       /\ ro' = o[1]
+       /\ Finish("rr_sign", res, IF res.ok THEN (out :> [ty |-> "zs", z |-> res.z]) ELSE << >>,
+                 [op |-> "rr_sign", out |-> out, pkg |-> pkgh, non |-> nonh, kp |-> kph, seed |-> seedh,
+                  expect |-> IF res.ok THEN [ok |-> TRUE, z |-> res.z] ELSE ErrProj(res)])
+
+ActRrAggregate(out, pkgh, slots, pkph, mode, rph) ==
+  /\ Has(pkgh) /\ Has(pkph) /\ Has(rph) /\ \A i \in DOMAIN slots : Has(slots[i])
+  /\ \E o \in Outcomes(ro, "rr_aggregate",
+                       [pkg |-> env[pkgh], shares |-> [i \in DOMAIN slots |-> env[slots[i]].z],
+                        pkp |-> env[pkph], mode |-> mode, rp |-> env[rph]]) :
+       LET res == o[2] IN
+       /\ ro' = o[1]
+       /\ Finish("aggregate", res, IF res.ok THEN (out :> [ty |-> "sig", R |-> res.R, z |-> res.z]) ELSE << >>,
+                 [op |-> "aggregate", out |-> out, pkg |-> pkgh, shares |-> Pairs(slots), pkp |-> pkph,
+                  mode |-> mode, rp |-> rph,
+                  expect |-> IF res.ok THEN [ok |-> TRUE, R |-> res.R, z |-> res.z] ELSE ErrProj(res)])
+
+\* verify under the key held by any object with a `vk` (or `vk2` for randomized params)
+VkOf(h) == IF env[h].ty = "rp" THEN env[h].vk2 ELSE env[h].vk
+ActVerifyUnder(vkh, msg, sigh) ==
+  /\ Has(vkh) /\ Has(sigh)
+  /\ \E o \in Outcomes(ro, "verify", [vk |-> VkOf(vkh), msg |-> msg, sig |-> env[sigh]]) :
+       LET res == o[2] IN
+       /\ ro' = o[1]
+       /\ Finish("verify", res, << >>,
+                 [op |-> "verify", pkp |-> vkh, msg |-> msg, sig |-> sigh,
+                  expect |-> IF res.ok THEN [ok |-> TRUE] ELSE ErrProj(res)])
+
+-----------------------------------------------------------------------------
+(* single-signer signing and batch verification *)
+
+ActMkSk(out, s) ==
+  /\ ro' = ro
+  /\ Finish("mk_sk", [ok |-> TRUE], (out :> [ty |-> "sk", s |-> s, vk |-> s]),
+            [op |-> "mk_sk", out |-> out, key |-> s, expect |-> [ok |-> TRUE, vk |-> s]])
+
+\* SigningKey::sign: zeros = number of zero draws rejected before the nonce k
+ActSingleSign(out, skh, zeros, k, msg) ==
+  /\ Has(skh)
+  /\ \E o \in Outcomes(ro, "single_sign", [s |-> env[skh].s, k |-> k, msg |-> msg]) :
+       LET res == o[2] IN
+       /\ ro' = o[1]
+       /\ Finish("single_sign", res, (out :> [ty |-> "sig", R |-> res.R, z |-> res.z]),
+                 [op |-> "single_sign", out |-> out, sk |-> skh, msg |-> msg,
+                  rng |-> [j \in 1..zeros |-> Draw2(0)] \o <<Draw2(k)>>,
+                  expect |-> [ok |-> TRUE, R |-> res.R, z |-> res.z]])
+
+ActTamperSig(out, h, what, d) ==
+  /\ Has(h)
+  /\ ro' = ro
+  /\ Finish("tamper_sig", [ok |-> TRUE],
+            (out :> (IF what = "R" THEN [env[h] EXCEPT !.R = Add(@, d)] ELSE [env[h] EXCEPT !.z = Add(@, d)])),
+            [op |-> "tamper_sig", out |-> out, src |-> h, what |-> what, d |-> d])
+
+\* batch: items = sequence of [vk |-> handle, sig |-> handle, msg |-> bytes]
+ActBatch(items, blinders) ==
+  /\ \A k \in DOMAIN items : Has(items[k].vk) /\ Has(items[k].sig)
+  /\ \E o \in Outcomes(ro, "batch",
+                       [items |-> [k \in DOMAIN items |-> [vk |-> VkOf(items[k].vk), sig |-> env[items[k].sig],
+                                                            msg |-> items[k].msg]],
+                        blinders |-> blinders]) :
+       LET res == o[2] IN
+       /\ ro' = o[1]
+       /\ Finish("batch", res, << >>,
+                 [op |-> "batch", items |-> [k \in DOMAIN items |-> <<items[k].vk, items[k].sig, items[k].msg>>],
+                  rng |-> IF "singles" \in DOMAIN res THEN Draws2(blinders) ELSE << >>,
+                  expect |-> IF res.ok THEN [ok |-> TRUE, singles |-> res.singles, plains |-> res.singles]
+                             ELSE IF "singles" \in DOMAIN res
+                                  THEN [ok |-> FALSE, err |-> res.err, singles |-> res.singles, plains |-> res.singles]
+                                  ELSE ErrProj(res)])
 
 -----------------------------------------------------------------------------
 (* emission of a finished behaviour as one replayable script *)
